@@ -77,11 +77,11 @@ pub struct Transform {
 
 impl Transform {
     pub(crate) fn from_node(node: &Node) -> Result<Self> {
-        let translation = match node.children().find(|n| n.has_tag_name("translation")) {
+        let translation = match node.children().find(|n| crate::xml::is_tag(n, "translation")) {
             Some(node) => Translation::from_node(&node)?,
             None => Translation::default(),
         };
-        let rotation = match node.children().find(|n| n.has_tag_name("rotation")) {
+        let rotation = match node.children().find(|n| crate::xml::is_tag(n, "rotation")) {
             Some(node) => Quaternion::from_node(&node)?,
             None => Quaternion::default(),
         };
